@@ -186,7 +186,7 @@ func runC11(c *core.Ctx) {
 	// API calls that go through A's loop are only issued while nothing is parked (a parked Enqueue site
 	// holds the loop goroutine, and the root goroutine must never block on it)
 	serve(gather)
-	n1 := t.Range(5, 40, "n1")
+	n1 := t.Range(0, 40, "n1")
 	started := false
 	for i := 0; i < n1 && !c.Failed(); i++ {
 		step()
